@@ -211,7 +211,12 @@ impl Property for C04 {
                     CompSel::HeaderLen => "codec:lzma/size",
                     CompSel::Skip => "codec:lzma/skip",
                 });
-                let enc = sut::lzma_compress(&data, copt, &c.reader, &io);
+                let enc = if sel == CompSel::HeaderNone && c.data.seed % 2 == 0 {
+                    // the default-options wrapper lzma_compress
+                    sut::lzma_compress_wrapper(&data, &c.reader, &io)
+                } else {
+                    sut::lzma_compress(&data, copt, &c.reader, &io)
+                };
                 if !enc.verdict.is_ok() {
                     return bad("compress-failed", format!("lzma_compress: {}", enc.verdict.brief()));
                 }
